@@ -25,4 +25,5 @@ INVARIANT OneActiveListen
 INVARIANT NoLeftovers
 INVARIANT SlotsRegistered
 INVARIANT WantsMatch
+INVARIANT UsurpedWasReplaced
 CHECK_DEADLOCK FALSE
